@@ -684,7 +684,7 @@ pub fn outline(rng: &mut Rng, known: &[(&str, usize)], max: usize) -> fol::Speci
 pub fn outline_with(rng: &mut Rng, known: &[(&str, usize)], tempting: &[(&str, usize)], fresh_pct: usize, max: usize) -> fol::Specification {
     let fresh: &[(&str, usize)] = &[("aux", 1), ("aux2", 2), ("d", 0), ("aux", 2)];
     let mut defined = vec![];
-    let n = rng.below(max + 1);
+    let n = g::count(rng, max);
     let mut formulas = vec![];
     for _ in 0..n {
         let e = outline_entry(rng, known, tempting, fresh_pct, fresh, &mut defined);
